@@ -240,8 +240,12 @@ class Ctx:
                 for t in shards[ix]:
                     f.write('Eval vm_compute in (%s).\n' % t)
             rc, out = sh(['coqc', '-noglob', '-Q', COQ, 'DV', path], cwd=cdir, timeout=timeout)
+            if rc != 0 and 'Error' not in out:
+                # killed from outside (memory pressure on a loaded machine): one retry
+                time.sleep(5)
+                rc, out = sh(['coqc', '-noglob', '-Q', COQ, 'DV', path], cwd=cdir, timeout=timeout)
             if rc != 0:
-                raise RuntimeError('model evaluation failed in %s:\n%s' % (path, out[-2000:]))
+                raise RuntimeError('model evaluation failed (exit status %s) in %s:\n%s' % (rc, path, out[-2000:]))
             res = coqterm.parse_evals(out)
             if len(res) != len(shards[ix]):
                 raise RuntimeError('model evaluation: %d results for %d terms in %s' % (len(res), len(shards[ix]), path))
